@@ -247,6 +247,11 @@ class Spec:
 
     def n_Call(self, n, env):
         f = self.e(n.func, env)
+        if isinstance(f, tuple) and f and f[0] == "specfn" and f[1] == "implies" and len(n.args) == 2:
+            # the consequent is only meaningful (and only evaluated) when the antecedent holds
+            if not self.e(n.args[0], env):
+                return True
+            return bool(self.e(n.args[1], env))
         args = [self.e(a, env) for a in n.args]
         if isinstance(f, tuple) and f and f[0] == "specfn":
             return SPECFNS[f[1]](self, *args)
@@ -322,7 +327,12 @@ def sp_exists(sp, lo, hi, f):
 
 
 def _rx(key):
-    return live_class(key)._regex_prog if isinstance(key, str) else key
+    if not isinstance(key, str):
+        return key
+    attr = "_regex_prog"
+    if "#" in key:
+        key, attr = key.split("#")
+    return getattr(live_class(key), attr)
 
 
 def _tag(sp, v):
@@ -338,7 +348,20 @@ def _tag(sp, v):
     raise NotEvaluable("tag")
 
 
+class RefRaises(Exception):
+    """the reference computation named by a contract clause raises on this input"""
+
+
 def _fn_result(sp, name, *args):
+    try:
+        return _fn_result0(sp, name, *args)
+    except (NotEvaluable, IndexOutside):
+        raise
+    except Exception as e:
+        raise RefRaises(f"{name} raises {type(e).__name__}: {e}")
+
+
+def _fn_result0(sp, name, *args):
     c = sp.reg.by_name(name)
     owner, f = fn_of_key(c.key)
     import functools
@@ -462,11 +485,13 @@ def check_input(reg, c, args):
         return None
     except Exception:
         return None
-    import copy
-    try:
-        snapshot = repr_args(args)
-    except Exception:
-        snapshot = None
+    if c.native_oracle is not None:
+        try:
+            f = c.native_oracle(reg, c, dict(env), lambda: call_real(c, args))
+        except Exception:
+            f = None
+        if f is not None:
+            return f
     try:
         result = call_real(c, args)
         raised = None
@@ -506,6 +531,8 @@ def check_input(reg, c, args):
                 return {"clause": f"{name}: {text}"[:600], "observed": f"result {result!r}"[:400]}
         except (NotEvaluable, IndexOutside):
             continue
+        except RefRaises as e:
+            return {"clause": f"{name}: {text}"[:600], "observed": f"returned {result!r} although {e}"[:400]}
         except Exception as e:
             continue
     return None
@@ -595,7 +622,7 @@ def replay_rx(unit, ob):
 
 
 # ---------------------------------------------------------------------- bounded stand-in: random small inputs
-POOL_INT = [0, 0, 1, 1, 2, 3, 4, 5, 7, 64, 65, 67, 96, 100, 191, 192, 193, 200, 480, 1000, -1]
+POOL_INT = [0, 0, 1, 1, 2, 3, 4, 5, 7, 64, 65, 67, 96, 100, 191, 192, 193, 200, 400, 480, 850, 900, 1000, -1]
 LINES = ["0 = N 0 0", "0 = N 1 10", "0 = N 7 5", "0 = N 5 0", "0 = N 6 0", "96 = N 2 0", "96 = N 4 30", "192 = N 3 0", "  64 = S 2 100", "64 = S 64 10",
          "0 = E solo", "10 = E soloend", "0 = B 120000", "192 = B 60000", "384 = B 0", "0 = TS 4", "0 = TS 3 3", "0 = A 1000", "garbage", "",
          '0 = E "lyric la"', '5 = E "section Intro"', '7 = E "text here"', "0 = N 8 0", "192 = N 0 0\t", 'Name = "x"', "Resolution = 192", "Offset = 0",
@@ -657,11 +684,48 @@ def gen_bpm_events(rnd):
     return BPMEvents(events=evs, resolution=res)
 
 
-SPECIAL_GEN = {"chartparse.sync:BPMEvents": gen_bpm_events}
+CHART_TEXTS = [
+    "[Song]\n{\n  Resolution = 100\n}\n[SyncTrack]\n{\n  0 = TS 4\n  0 = B 120000\n  400 = B 60000\n  800 = B 150000\n}\n[Events]\n{\n}\n"
+    "[ExpertSingle]\n{\n  0 = N 0 0\n  200 = N 1 300\n  400 = N 2 0\n  400 = N 3 50\n  850 = N 4 0\n  900 = N 7 10\n}\n[HardSingle]\n{\n}\n",
+    "[Song]\n{\n  Resolution = 192\n}\n[SyncTrack]\n{\n  0 = TS 4\n  0 = B 120000\n}\n[Events]\n{\n}\n"
+    "[ExpertSingle]\n{\n  192 = N 0 0\n  384 = N 1 0\n  576 = N 2 96\n}\n[EasyDoubleBass]\n{\n  0 = N 0 0\n}\n",
+]
+
+
+def gen_chart(rnd):
+    import io
+    import chartparse.chart as cc
+    return cc.Chart.from_file(io.StringIO(rnd.choice(CHART_TEXTS)))
+
+
+def gen_bpm_data(rnd):
+    import chartparse.chart  # noqa
+    from chartparse.sync import BPMEvent
+    return BPMEvent.ParsedData(tick=rnd.choice([0, 1, 2, 3, 96, 192, 193, 500, 1000]),
+                               raw_bpm=str(rnd.choice([120000, 60000, 128003, 147253, 1118, 1, 999999999, 200000, 90000, 0, 1001])))
+
+
+def gen_bpm_event(rnd):
+    import chartparse.chart  # noqa
+    from chartparse.sync import BPMEvent
+    o = object.__new__(BPMEvent)
+    for k, v in dict(tick=rnd.choice([0, 1, 2, 3, 96, 192]), timestamp=datetime.timedelta(microseconds=rnd.choice([0, 1, 500000, 1000001])),
+                     _proximal_bpm_event_index=rnd.choice([0, 1, 2]), bpm=rnd.choice([120.0, 60.0, 999999.999, 128.003, 0.001, 1.118, 0.0])).items():
+        object.__setattr__(o, k, v)
+    return o
+
+
+SPECIAL_GEN = {"chartparse.sync:BPMEvents": gen_bpm_events, "chartparse.chart:Chart": gen_chart,
+               "chartparse.sync:BPMEvent.ParsedData": gen_bpm_data, "chartparse.sync:BPMEvent": gen_bpm_event}
 
 
 def sorted_fix(c, args, rnd):
     """cheap repairs that make random inputs satisfy common preconditions"""
+    ch = args.get("self")
+    if ch is not None and hasattr(ch, "instrument_tracks") and "instrument" in args and rnd.random() < 0.85:
+        pairs = [(i, d) for i, dd in ch.instrument_tracks.items() for d in dd]
+        if pairs:
+            args["instrument"], args["difficulty"] = rnd.choice(pairs)
     for p, v in list(args.items()):
         if isinstance(v, list) and v and hasattr(v[0], "tick") and hasattr(v[0], "note_track_index"):
             # one tick group or tick-sorted data with distinct indices per tick, open first
